@@ -69,6 +69,7 @@ def generate(seed, tier, enlarged=False):
         {'kind': 'run', 'evs': [[1, [[['p', 'x'], 1]]], [2, [[['p', 'y'], 2]]], [3, [[['q', 'x'], 3]]]],
          'ts': 1.0, 'clocks': [5.0, 6.0]},
         {'kind': 'engine', 'evs': [[5, [[['p', 'x'], 7]]], [0, [[['p', 'y'], 3]]]], 'ts': 1, 'total': 8},
+        {'kind': 'engine', 'evs': [[4, [[['p', 'x'], 50]]]], 'ts': 2, 'total': 8, 'segs': [3, 3, 2]},
     ]
     for i in range(n):
         r = i % 10
@@ -92,6 +93,13 @@ def generate(seed, tier, enlarged=False):
             evs = [[float(int(t)) if rng.random() < 0.5 else t, cd] for t, cd in evs]
             cases.append({'kind': 'engine', 'evs': evs, 'ts': rng.choice([1, 2, 3]),
                           'total': rng.randint(1, 16)})
+            if rng.random() < 0.5:
+                # the run split into several update() calls: ticks cut short by the end of a segment
+                segs, left = [], cases[-1]['total']
+                while left > 0:
+                    segs.append(rng.randint(1, min(left, 5)))
+                    left -= segs[-1]
+                cases[-1]['segs'] = segs
     return cases
 
 
@@ -166,7 +174,8 @@ def run_engine(c):
     with contextlib.redirect_stdout(io.StringIO()):
         eng = Engine(processes=processes, topology=topology, emitter='timeseries',
                      display_info=False, progress_bar=False)
-        eng.update(c['total'])
+        for seg in c.get('segs') or [c['total']]:
+            eng.update(seg)
         data = eng.emitter.get_data()
     rows = {}
     for t, row in data.items():
@@ -179,14 +188,21 @@ def run_engine(c):
 def expected_rows(c):
     """trajectory of the three witnessed variables computed from the listing alone"""
     ts, total = c['ts'], c['total']
-    # firing tick of every event: first k with k*ts >= t ; applied at (k+1)*ts
+    # the ticks of the timeline process: update() forces the last interval of every segment to end with the segment,
+    # and the next tick starts there
+    ticks, t, end = [], 0, 0
+    for seg in c.get('segs') or [total]:
+        end += seg
+        while t < end:
+            ticks.append((t, min(t + ts, end)))
+            t = ticks[-1][1]
+    # firing tick of every event: the first tick that starts at or after its time; applied when that tick ends
     sets = []   # (apply_time, event_time, listing_index, var, value)
     for idx, (t, cd) in enumerate(c['evs']):
-        k = max(0, math.ceil(t / ts))
-        at = min((k + 1) * ts, total)     # update() forces the last interval to end at `total`
-        if k * ts < total:
+        hit = [tk for tk in ticks if tk[0] >= t]
+        if hit:
             for p, v in cd:
-                sets.append((at, t, idx, '.'.join(p), v))
+                sets.append((hit[0][1], t, idx, '.'.join(p), v))
     rows = {}
     for T in range(0, total + 1):
         row = {}
